@@ -726,6 +726,36 @@ func init() {
 		Bounds:   "real DescribeTunnel / DiscoverOnInterface (with the real TunnelSocket/RouterSocket methods) against an environment that offers 0..3 (thorough 5) frames, each a description response, a search response or another frame, each after a delay of 0, 2 or 4 s on the virtual clock (timeout 5 s), every interleaving of offer and timeout; one request written, carrying the host info of the socket's local address; socket closed exactly once",
 		Outside:  "real sockets (Dial/Listen are redirected to environment functions), origin filtering by serveUDPSocket, malformed frames (dropped by the receiver: C01/C16), scheduling slack (virtual time advances only when no goroutine can move)",
 	})
+
+	c05 := func(thorough bool) []Inst {
+		out := []Inst{
+			{Pkg: "knx", Fn: "HarnessC05Out", Args: []int64{2, 0}, Ctx: 2, MaxSched: 20000},
+			{Pkg: "knx", Fn: "HarnessC05Out", Args: []int64{2, 1}, Ctx: 2, MaxSched: 20000},
+			{Pkg: "knx", Fn: "HarnessC05Out", Args: []int64{2, 2}, Ctx: 2, MaxSched: 20000},
+			{Pkg: "knx", Fn: "HarnessC05Out", Args: []int64{2, 3}, Ctx: 2, MaxSched: 20000, Note: "three lost acknowledgements let a Send time out"},
+			{Pkg: "knx", Fn: "HarnessC05In", Args: []int64{2, 0}, Ctx: 2, MaxSched: 20000},
+			{Pkg: "knx", Fn: "HarnessC05In", Args: []int64{2, 1}, Ctx: 2, MaxSched: 20000},
+			{Pkg: "knx", Fn: "HarnessC05In", Args: []int64{2, 2}, Ctx: 2, MaxSched: 20000},
+		}
+		if thorough {
+			out = append(out,
+				Inst{Pkg: "knx", Fn: "HarnessC05Out", Args: []int64{3, 2}, Ctx: 2, MaxSched: 30000},
+				Inst{Pkg: "knx", Fn: "HarnessC05Out", Args: []int64{3, 3}, Ctx: 2, MaxSched: 30000},
+				Inst{Pkg: "knx", Fn: "HarnessC05In", Args: []int64{3, 2}, Ctx: 3, MaxSched: 30000},
+				Inst{Pkg: "knx", Fn: "HarnessC05In", Args: []int64{3, 3}, Ctx: 2, MaxSched: 30000})
+		}
+		return out
+	}
+	reg(&Spec{
+		ID:       "C05",
+		NoNative: true,
+		Quick:    func(l *loaded) []Inst { return c05(false) },
+		Thorough: func(l *loaded) []Inst { return c05(true) },
+		Covers:   []string{"C05.out.end", "C05.in.end", "C05.out.after_timeout"},
+		Bounds:   "composition of the real client with a rule-following gateway and a lossy/duplicating/delaying network (harness goroutines): outbound 2 (thorough 3) telegrams from a symbolic start number (wrap included) with up to 3 faults (request lost / duplicated with a delayed copy / overtaken, acknowledgement lost / duplicated), real Send, real handleTunnelRes relay goroutines, virtual-time resend and timeout; inbound 2 (3) telegrams with up to 2 (3) faults through the real process() goroutine; context bound 2",
+		Outside:  "6 telegrams per direction, more than 3 faults, more than one delayed copy in flight; the one-step harnesses of C03/C04 carry the induction over long histories",
+		Assume:   []string{"gateway and network are harness code written from the tunnelling rules in the property"},
+	})
 }
 
 func dptWireLen(m int64) int64 {
